@@ -853,7 +853,7 @@ impl Scenario for ExportScenario {
     }
     fn runs(&self, tier: Tier) -> u64 {
         match tier {
-            Tier::Quick => 1_500,
+            Tier::Quick => 3_000,
             Tier::Thorough => 40_000,
         }
     }
@@ -1182,7 +1182,7 @@ impl Scenario for ModelRoundTripScenario {
     }
     fn runs(&self, tier: Tier) -> u64 {
         match tier {
-            Tier::Quick => 1_500,
+            Tier::Quick => 3_000,
             Tier::Thorough => 40_000,
         }
     }
